@@ -4,6 +4,9 @@ import Ivy.L3.WorkProofs
 
 Property theorems only (same LTS as C12, `Ivy/L3/Work.lean`, plus the `TSt` model of one iv_thread and its creator,
 for the code after the repair harness/iv_thread_creator_deinit.patch; the history of the defect is in Work.lean).
+The pool LTS includes submissions by threads that are neither the owner nor a worker of the pool (`submitf`, e.g. a
+worker of another pool) and is the model of iv_work.c after the D10 repair harness/iv_work_d10.patch (`iv_work_event`
+frees a shutting-down pool only when `work_items` is empty too); history and witness in Work.lean and at the end of this file.
 -/
 namespace Ivy.Props.C13
 open Ivy.Work
@@ -34,9 +37,43 @@ theorem lifecycle_step {s s' : St} {a : Act} (hs : step s a = some s') {k : Nat}
     (s.w k).pc.rank ≤ (s'.w k).pc.rank ∧ (s'.w k).pc.rank ≤ (s.w k).pc.rank + 1 := Proofs.rank_step hs hk
 
 /-- The last worker posts the owner: whenever a shutting-down pool has no thread left and is not yet freed, the
-owner's event is owed or the owner is already inside iv_work_event. -/
+owner's event is owed or the owner is already inside iv_work_event — or work is still queued and `thread_needed` is owed
+(or being handled), so that a worker WILL be started, and that worker posts the owner when it dies.
+(Statement changed: the last alternative is new.  The LTS gained a submitter that can enqueue while `started = 0`
+(`submitf`); the repaired `iv_work_event` then declines to free the pool and returns with nothing owed on `ev`: state
+after submitf, put, oEv, oSteal, oFinish.  Without queued work the old statement holds verbatim.) -/
 theorem owner_owed_when_last_worker_gone {s : St} (h : Inv s) (hsh : s.shut = true) (h0 : s.started = 0)
-    (hf : s.freed = false) : s.evOwed = true ∨ s.owner = .evPre ∨ ∃ b, s.owner = .compl b := h.shut_ev hsh h0 hf
+    (hf : s.freed = false) :
+    s.evOwed = true ∨ s.owner = .evPre ∨ (∃ b, s.owner = .compl b) ∨
+    (s.queue ≠ [] ∧ (s.tnOwed = true ∨ s.owner = .tnPre)) := h.shut_ev hsh h0 hf
+
+/-- The repaired code cannot hang in that last situation: in every reachable state without a worker thread but with
+work queued (shutting down or not), the pool is not freed, `thread_needed` is owed to the owner or its handler has been
+invoked (the handler starts the thread inside its critical section: there is no separate "start in progress" state), and
+the library is not quiescent: the owner's loop has a handler to run. -/
+theorem no_hang_when_last_worker_gone {max : Nat} (hm : 1 ≤ max) {s : St} (hr : Reach max s) (h0 : s.started = 0)
+    (hq : s.queue ≠ []) : s.freed = false ∧ (s.tnOwed = true ∨ s.owner = .tnPre) ∧ ¬ Stuck s :=
+  Proofs.last_worker_gone_tn (Proofs.reach_inv hm hr) h0 hq
+
+/-- thread_needed is honoured while shutting down — about ALL reachable states, every interleaving:
+(1) `iv_work_pool_put` does not cancel an owed `thread_needed`, nor touch the queue or the thread count;
+(2) the handler does not look at `shutting_down`: with nobody idle and fewer than `max_threads` threads it starts a
+    worker (which finds the queue as it was);
+(3) while anything is queued, the pool is not freed, and a worker is responsible for the queue or no thread exists and
+    `thread_needed` is owed / being handled in a state where (2) applies (`idle = []`, `started < max`);
+(4) hence "freed with a non-empty queue" is unreachable.
+The seeded change "skip the start when shutting_down" breaks (2); the pinned code before the D10 repair broke (4). -/
+theorem thread_needed_honoured_when_shutting_down {max : Nat} (hm : 1 ≤ max) {s : St} (hr : Reach max s) :
+    (∀ s', step s .put = some s' → s'.tnOwed = s.tnOwed ∧ s'.queue = s.queue ∧ s'.started = s.started) ∧
+    (∀ s', step s .oTnRun = some s' → s.idle = [] → s.started < s.max →
+       s'.nw = s.nw + 1 ∧ s'.started = s.started + 1 ∧ (s'.w s.nw).pc = .starting ∧ s'.queue = s.queue ∧ s'.shut = s.shut) ∧
+    (s.queue ≠ [] → s.freed = false ∧
+       ((∃ k, k < s.nw ∧ Resp s k) ∨
+        (s.started = 0 ∧ s.idle = [] ∧ s.started < s.max ∧ (s.tnOwed = true ∨ s.owner = .tnPre)))) ∧
+    (s.freed = true → s.queue = []) :=
+  ⟨fun _ hs => Proofs.put_keeps_tn hs, fun _ hs hi hlt => Proofs.tn_starts hs hi hlt,
+   fun hq => Proofs.shut_queue_owed (Proofs.reach_inv hm hr) hq,
+   fun hf => ((Proofs.reach_inv hm hr).freed_imp hf).2.2.1⟩
 
 /-- The pool's two events are unregistered exactly at the owner's shutting_down test with `started = 0 ∧ done = []`,
 never before: at that moment nothing is queued, every item has completed and no worker is alive. -/
@@ -95,6 +132,45 @@ example :
        .oEv, .oSteal, .oComplete, .oFinish, .oJoin 0] : List Act).foldlM step (St.init 2)).map
       (fun s => s.freed && !s.handle && (s.w 0).pc == .joined && (s.w 0).starts == 1 && (s.w 0).stops == 1 &&
                 poolObjs s == 0 && (s.it 0).phase == .completed) = some true := by decide
+
+/-- Non-vacuity, the scenario of corpus/C13/foreign-continuation-then-put.scn seen from pool p1 (max 2, no worker yet):
+a worker of another pool submits a continuation (only `thread_needed` is posted), the owner calls put before its loop
+handled it (no thread: `ev` posted); the loop handles `thread_needed` first: worker 0 is started although the pool is
+shutting down; `ev` finds a live thread and returns; the worker runs the item, finds the queue empty while shutting
+down and dies, posting `ev`; the owner completes the item and frees the pool; the thread is joined. -/
+example :
+    (([Act.submitf, .put, .oTn, .oTnRun, .oEv, .oSteal, .oFinish, .wStart 0, .wSelfKick 0, .wKick 0, .wEnter 0, .wAfter 0,
+       .wExit 0, .oEv, .oSteal, .oComplete, .oFinish, .oJoin 0] : List Act).foldlM step (St.init 2)).map
+      (fun s => s.freed && !s.handle && s.queue == [] && (s.it 0).phase == .completed && (s.it 0).workRuns == 1 &&
+                (s.it 0).complRuns == 1 && (s.w 0).pc == .joined && (s.w 0).starts == 1 && (s.w 0).stops == 1 &&
+                poolObjs s == 0) = some true := by decide
+
+/-- Non-vacuity of the repaired test: the same with `ev` handled BEFORE `thread_needed` (the order in which they were
+posted when `ev` was pending already, as in D10): iv_work_event declines to free the pool (item queued), then
+`thread_needed` starts the worker and everything drains. -/
+example :
+    (([Act.submitf, .put, .oEv, .oSteal, .oFinish] : List Act).foldlM step (St.init 2)).map
+      (fun s => !s.freed && s.queue == [0] && s.tnOwed && !s.evOwed && s.owner == .idle && s.started == 0) = some true := by decide
+
+example :
+    (([Act.submitf, .put, .oEv, .oSteal, .oFinish, .oTn, .oTnRun, .wStart 0, .wSelfKick 0, .wKick 0, .wEnter 0, .wAfter 0,
+       .wExit 0, .oEv, .oSteal, .oComplete, .oFinish, .oJoin 0] : List Act).foldlM step (St.init 2)).map
+      (fun s => s.freed && (s.it 0).phase == .completed && (s.w 0).pc == .joined && poolObjs s == 0) = some true := by decide
+
+/-- History, defect D10 (corpus/C13/d10-freed-with-queued-continuation.scn): on the LTS of the pinned code BEFORE the
+repair (`stepD10`: the free test ignores `work_items`) the pool is freed with item 1 queued and `thread_needed` owed:
+the owner did not run its loop for 10 s while `ev` was pending, the only worker idled out, a foreign continuation
+arrived, then put.  Item 1 is never run. -/
+example :
+    (([Act.submit, .wStart 0, .wSelfKick 0, .wKick 0, .wEnter 0, .wAfter 0, .wTimeout 0, .wTimeoutRun 0, .submitf, .put,
+       .oEv, .oSteal, .oComplete, .oFinish] : List Act).foldlM stepD10 (St.init 1)).map
+      (fun s => s.freed && s.queue == [1] && (s.it 1).phase == .queued && (s.it 1).workRuns == 0 && s.started == 0) = some true := by decide
+
+/-- ... and on the repaired LTS the same schedule ends with the pool alive and `thread_needed` owed. -/
+example :
+    (([Act.submit, .wStart 0, .wSelfKick 0, .wKick 0, .wEnter 0, .wAfter 0, .wTimeout 0, .wTimeoutRun 0, .submitf, .put,
+       .oEv, .oSteal, .oComplete, .oFinish] : List Act).foldlM step (St.init 1)).map
+      (fun s => !s.freed && s.queue == [1] && s.tnOwed && s.started == 0) = some true := by decide
 
 /-- Non-vacuity (iv_thread): a body that returns without iv_deinit, joined by the creator's loop. -/
 example : (([TAct.run, .leave, .destruct, .died] : List TAct).foldlM tstep { mode := .retNoDeinit }).map
